@@ -73,7 +73,11 @@ theorem fetch_answer {cfg verb keys expire cmd} {s s' : St} {reply : Bytes}
 
 /-- the side conditions under which C02 proves that the strict parser reads the call's bytes as intended:
 non-empty wire keys (the empty key is C02's open finding), non-negative `flags`, `delta`, `delay`; raw
-commands are the caller's business -/
+commands are the caller's business.  The administrative operations `stats`, `cache_memlimit`, `shutdown` are
+excluded (`False`) as well: the strict parser `Wire.parseReq` and the wire-level server `Server.feed` know the
+C05 alphabet only, so `Server.feed` has no answer to their requests (same exclusion as `Client.WF`).  This
+concerns only the two theorems about the *model's reference server* (`C01_reference_server_answers_what_is_owed`,
+`C01_onServer_pipe_clean`); every other C01 theorem covers the three operations. -/
 def SideOK (cfg : Cfg) : Call → Prop
   | .store _ k _ _ _ flags _ => keyNonEmpty cfg k ∧ (∀ f, flags = some f → 0 ≤ f)
   | .setMany items _ _ flags => (∀ kv ∈ items, keyNonEmpty cfg kv.1) ∧ (∀ f, flags = some f → 0 ≤ f)
@@ -91,6 +95,9 @@ def SideOK (cfg : Cfg) : Call → Prop
   | .version => True
   | .quit => True
   | .raw _ _ => False
+  | .stats _ => False
+  | .cacheMemlimit _ => False
+  | .shutdown _ => False
 
 theorem sends_of_sent {cfg : Cfg} {c : Call} {p : Bytes}
     (h : (Client.call cfg false true c {}).sent = some p) : sends cfg c = true := by
@@ -161,6 +168,9 @@ theorem server_answers_call (cfg : Cfg) (c : Call) (hside : SideOK cfg c) (paylo
   have hs := sends_of_sent hsent
   cases c with
   | raw cmd tok => exact hside.elim
+  | stats args => exact hside.elim
+  | cacheMemlimit m => exact hside.elim
+  | shutdown g => exact hside.elim
   | quit =>
     have : owed cfg .quit = .nothing := by simp [owed, effNoreply]
     rw [this]
